@@ -12,6 +12,7 @@ CONSTANTS
   MaxFail = 1
   MaxCalls = 0
   MaxApi = 0
+  WithGC = TRUE
   AtomicPeers = FALSE
   SignedWant = FALSE
   Serialized = FALSE
